@@ -180,6 +180,201 @@ def elementary_gates(rng):
     return one, two
 
 
+# ----------------------------------------------------------------------------- multiplexers with trivial / repeated branches
+IDENT_KINDS = {1: ["IdentityGate", "General", "RzGate(0)", "RxGate(0)", "PhaseFactor(0)", "General-real"],
+               2: ["General", "PhaseFactor(0)", "General-real"]}
+
+
+def mux_branch_gate(br, nt):
+    """one target gate from its JSON description {"ctor", "mat"}"""
+    import qib
+    c = br["ctor"]
+    if c == "IdentityGate":
+        return qib.IdentityGate()
+    if c == "RzGate(0)":
+        return qib.RzGate(0.0)
+    if c == "RxGate(0)":
+        return qib.RxGate(0.0)
+    if c == "PhaseFactor(0)":
+        return qib.PhaseFactorGate(0.0, nt)
+    if c == "General-real":
+        return qib.GeneralGate(np.identity(2 ** nt), nt)
+    if c == "General":
+        return qib.GeneralGate(mat_of(br["mat"]), nt)
+    if c == "PauliX":
+        return qib.PauliXGate()
+    if c == "PauliY":
+        return qib.PauliYGate()
+    if c == "PauliZ":
+        return qib.PauliZGate()
+    if c == "S":
+        return qib.operator.SGate()
+    if c == "Sadj":
+        return qib.operator.SAdjGate()
+    if c == "RyGate":
+        return qib.RyGate(float(br["theta"]))
+    raise ValueError(c)
+
+
+def build_mux(spec):
+    """spec (JSON) -> (gate, replay description, matrices of the branches taken from the target gates themselves).
+    A branch {"same_as": j} is THE SAME OBJECT as branch j."""
+    import qib
+    nc, nt = spec["ncontrols"], spec["ntargets"]
+    gates = []
+    for br in spec["branches"]:
+        if br.get("same_as") is not None:
+            gates.append(gates[br["same_as"]])
+        else:
+            gates.append(mux_branch_gate(br, nt))
+    mats = [np.asarray(g.as_matrix(), dtype=complex) for g in gates]
+    gate = qib.MultiplexedGate(gates, nc)
+    return gate, dict(spec, kind="mux-sparse"), mats
+
+
+def mux_oracle(ctx, desc, gate, mats):
+    """multiplexer = block diagonal of the branch matrices, control 0 = most significant bit of the branch index
+    (computed here from the branch matrices, not from MultiplexedGate.as_matrix)"""
+    nc, nt = desc["ncontrols"], desc["ntargets"]
+    d = 2 ** nt
+    want = np.zeros((d * len(mats), d * len(mats)), dtype=complex)
+    for k, m in enumerate(mats):
+        want[k * d:(k + 1) * d, k * d:(k + 1) * d] = m
+    try:
+        am = np.asarray(gate.as_matrix())
+    except Exception as e:
+        ctx.fail("mux:as_matrix-raises:" + type(e).__name__, desc, "a matrix", repr(e))
+        am = None
+    if am is not None and (am.shape != want.shape or not np.allclose(am, want, rtol=0, atol=TOL)):
+        ctx.fail("mux:as_matrix-differs-from-block-diagonal", desc, "block_diag(branches)", "differs")
+    return oracle_gate(ctx, "mux", desc, gate, nc + nt, expect=want)
+
+
+def sparse_mux_specs(rng, thorough):
+    """multiplexers whose branches are identities (of several kinds) except for a few, at EVERY branch index;
+    repeated targets (same object / equal objects)"""
+    def ident(nt):
+        k = rng.choice(IDENT_KINDS[nt])
+        if k == "General":
+            return {"ctor": "General", "mat": mat_desc(np.identity(2 ** nt))}
+        return {"ctor": k}
+
+    def nontrivial(nt, floaty=False):
+        if floaty and nt == 1:
+            return {"ctor": "RyGate", "theta": round(rng.uniform(0.3, 2.8), 3)}
+        if nt == 1 and rng.random() < 0.6:
+            return {"ctor": rng.choice(["PauliX", "PauliY", "PauliZ", "S", "Sadj"])}
+        while True:
+            m = monomial(rng, nt)
+            if not np.array_equal(m, np.identity(2 ** nt)):
+                break
+        if rng.random() < 0.15:
+            m = -np.identity(2 ** nt, dtype=complex)          # identity up to a phase is NOT a trivial branch
+        return {"ctor": "General", "mat": mat_desc(m)}
+
+    def spec(family, nc, nt, branches):
+        return {"family": family, "ncontrols": nc, "ntargets": nt, "branches": branches}
+
+    out = []
+    reps = 2 if thorough else 1
+    for _ in range(reps):
+        for nc, nt in [(2, 1), (3, 1), (4, 1), (2, 2), (3, 2)] + ([(4, 2)] if thorough else []):
+            nb = 2 ** nc
+            # exactly one non-trivial branch, every index
+            for k in range(nb):
+                out.append(spec("single-branch", nc, nt, [nontrivial(nt) if j == k else ident(nt) for j in range(nb)]))
+            # exactly one trivial branch
+            k = rng.randrange(nb)
+            out.append(spec("single-identity", nc, nt, [ident(nt) if j == k else nontrivial(nt) for j in range(nb)]))
+            # two non-trivial branches
+            for _r in range(2):
+                a, b = rng.sample(range(nb), 2)
+                out.append(spec("two-branches", nc, nt, [nontrivial(nt) if j in (a, b) else ident(nt) for j in range(nb)]))
+            # the same OBJECT in several branches (identity elsewhere), and in all branches
+            for _r in range(2):
+                ks = sorted(rng.sample(range(nb), rng.randint(2, max(2, nb // 2))))
+                brs = []
+                for j in range(nb):
+                    if j == ks[0]:
+                        brs.append(nontrivial(nt))
+                    elif j in ks:
+                        brs.append({"same_as": ks[0]})
+                    else:
+                        brs.append(ident(nt))
+                out.append(spec("repeated-object", nc, nt, brs))
+            out.append(spec("same-object-everywhere", nc, nt, [nontrivial(nt)] + [{"same_as": 0}] * (nb - 1)))
+            # one identity OBJECT shared by all trivial branches, one active branch
+            k = rng.randrange(1, nb)
+            brs = [ident(nt)] + [{"same_as": 0}] * (nb - 1)
+            brs[k] = nontrivial(nt)
+            out.append(spec("shared-identity-object", nc, nt, brs))
+            out.append(spec("all-identity", nc, nt, [ident(nt) for _ in range(nb)]))
+        # float data (oracle only): one rotation at every index
+        for nc in (2, 3):
+            for k in range(2 ** nc):
+                out.append(spec("single-branch-float", nc, 1, [nontrivial(1, True) if j == k else {"ctor": "IdentityGate"}
+                                                                  for j in range(2 ** nc)]))
+    return out
+
+
+# ----------------------------------------------------------------------------- prepare gates: directed vectors
+def prep_vectors(rng, n, thorough):
+    """(family, vector) - zeros at the front / back / in between, basis states, negative entries"""
+    d = 2 ** n
+    out = []
+    for k in range(d):
+        e = np.zeros(d)
+        e[k] = 1.0
+        out.append(("basis-state", e))
+        if k in (0, 1, d - 1):
+            out.append(("negative-basis-state", -e))
+    for z in range(1, d):
+        v = np.array([0.0] * z + [(-1.0) ** j * (j + 1) for j in range(d - z)])
+        out.append(("leading-zeros", v))
+        out.append(("trailing-zeros", v[::-1].copy()))
+    v = np.array([float(j % 2) * (j + 1) * (-1.0) ** (j // 2) for j in range(d)])
+    out.append(("alternating-zeros(first-zero)", v))
+    out.append(("alternating-zeros(first-nonzero)", np.roll(v, 1)))
+    out.append(("all-negative", -np.arange(1.0, d + 1)))
+    out.append(("negative-first", np.array([-1.0] + [float(j + 1) for j in range(1, d)])))
+    out.append(("negative-zero-first", np.array([-0.0] + [float(j + 1) * (-1.0) ** j for j in range(1, d)])))
+    out.append(("tiny-first", np.array([1e-300] + [1.0] * (d - 1))))
+    for _ in range(4 if thorough else 2):
+        v = np.array([rng.uniform(-1, 1) for _ in range(d)])
+        for j in rng.sample(range(d), rng.randint(1, d - 1)):
+            v[j] = 0.0
+        out.append(("random-with-zeros", v))
+    return out
+
+
+def prep_case(ctx, vec, n, tr, derive, family):
+    """PrepareGate(vec, n, tr) (derive: plain / inverse / inverse-inverse) against the documented exception:
+    network = |x><0..0| (transposed: |0..0><x|) and the gate's matrix agrees with it on the all-zero input"""
+    import qib
+    desc = {"kind": "prep", "nqubits": n, "transpose": tr, "vec": [float(v) for v in vec], "derive": derive, "family": family}
+    try:
+        gate = qib.PrepareGate(np.array(vec, dtype=float), n, transpose=tr)
+        if derive == "inverse":
+            gate = qib.PrepareGate(np.array(vec, dtype=float), n, transpose=not tr).inverse()
+        elif derive == "inverse-inverse":
+            gate = gate.inverse().inverse()
+    except Exception as e:
+        ctx.fail("prep:construction-raises:" + type(e).__name__, desc, "a gate", repr(e))
+        return None, None
+    v1 = np.array(vec, dtype=float)
+    v1 = v1 / np.abs(v1).sum()
+    x = np.sign(v1) * np.sqrt(np.abs(v1))          # from the input vector, not from gate.vec
+    if gate.transpose != tr:
+        ctx.fail("prep:derived-gate-has-wrong-orientation", desc, tr, gate.transpose)
+    try:
+        am = np.asarray(gate.as_matrix())
+    except Exception as e:
+        ctx.fail("prep:as_matrix-raises:" + type(e).__name__, desc, "a matrix", repr(e))
+        return None, None
+    if am.shape != (2 ** n, 2 ** n) or not np.allclose(am @ am.conj().T, np.identity(2 ** n), rtol=0, atol=1e-10):
+        ctx.fail("prep:as_matrix-not-unitary", desc, "unitary", "differs")
+    net = oracle_gate(ctx, "prep", desc, gate, n, prepare=(x, tr))
+    return gate, net
 # ----------------------------------------------------------------------------- memory layouts and derivations
 LAYOUTS = ["C", "F", "T-view-of-C", "strided-view", "negative-stride", "complex64", "float64"]
 DERIVES = ["plain", "inverse", "copy", "inverse-inverse", "ctrl[1]", "ctrl[0]", "mux", "ctrl-of-inverse"]
@@ -483,7 +678,12 @@ def sweep(ctx):
     ctx.rules.append("controlled gates: ALL control patterns with 1..%d controls x 1..2 targets (structure, exact), values for "
                      "all patterns with <= 3 controls (thorough: <= 4) and a seeded sample of the larger ones, exact monomial targets; "
                      "nested controlled gates (2-3 levels); multiplexers 1..3 controls x 1..2 targets; phase factors 1..4 wires; "
-                     "prepare 1..3 qubits both orientations; every elementary gate class. non-trivial = a network with at "
+                     "multiplexers with identity branches (IdentityGate / GeneralGate(I) / Rz(0) / Rx(0) / PhaseFactor(0)): exactly one "
+                     "non-trivial branch at EVERY index for 2-4 controls, one trivial branch, two non-trivial, the same target object in "
+                     "several / all branches, one shared identity object, all identity; value against block_diag of the branch matrices; "
+                     "prepare 1..3 qubits both orientations + directed vectors (every basis state e_k and -e_k, 1..d-1 leading / trailing "
+                     "zeros, alternating zeros, -0.0 / 1e-300 first, all negative, random with zeros), plain / inverse() / inverse().inverse(): "
+                     "network = |x><0..0|, as_matrix unitary with column (row) 0 = x; every elementary gate class. non-trivial = a network with at "
                      "least one contracted or shared bond (everything except single-tensor wraps)" % maxc)
 
     # ------------------------------------------------------------------ controlled gates
@@ -567,6 +767,22 @@ def sweep(ctx):
                         add("VMux %s %s %s %s" % (ct.nat(nc), ct.nat(nt), ct.lst([ct.zimat(g.as_matrix()) for _, g in tgs]),
                                                   sparse(full)), dict(desc, op="value"))
 
+    # ------------------------------------------------------------------ multiplexers with identity / repeated targets
+    for spec in sparse_mux_specs(rng, ctx.thorough):
+        gate, desc, mats = build_mux(spec)
+        nc, nt = spec["ncontrols"], spec["ntargets"]
+        ctx.count("mux_sparse_%s" % spec["family"])
+        ctx.count("mux_sparse_nc=%d" % nc)
+        net = mux_oracle(ctx, desc, gate, mats)
+        if nc <= 3 and all(exact(m) for m in mats):
+            o, _, _ = obs("mux", gate.as_tensornet)
+            add("KMux %s %s %s" % (ct.z(nc), ct.z(nt), o), dict(desc, op="structure"))
+            if net is not None:
+                full = full_tensor(net)
+                if exact(full):
+                    add("VMux %s %s %s %s" % (ct.nat(nc), ct.nat(nt), ct.lst([ct.zimat(m) for m in mats]), sparse(full)),
+                        dict(desc, op="value"))
+
     # ------------------------------------------------------------------ phase factor gates
     for n in (1, 2, 3, 4):
         for phi in ([0.0, 0.7, -2.1] + ([rng.uniform(-6, 6) for _ in range(3)] if ctx.thorough else [])):
@@ -604,6 +820,28 @@ def sweep(ctx):
                             net.data[k] = xi.reshape(n * (2,))
                     add("VPrep %s %s %s %s" % (ct.nat(n), ct.b(tr), ct.lst([ct.zi(v) for v in xi]), sparse(full_tensor(net))),
                         dict(desc, op="value", x=[str(v) for v in xi]))
+
+    # directed preparation vectors (zeros at the front / back, basis states, negative entries), plain and derived
+    for n in (1, 2, 3):
+        for family, vec in prep_vectors(rng, n, ctx.thorough):
+            for tr in (False, True):
+                derives = ("plain", "inverse", "inverse-inverse") if (ctx.thorough or n <= 2) else ("plain", "inverse")
+                for derive in derives:
+                    ctx.count("prep_directed_%s" % family)
+                    gate, net = prep_case(ctx, vec, n, tr, derive, family)
+                    if derive == "plain" and gate is not None and family in ("basis-state", "leading-zeros", "trailing-zeros"):
+                        desc = {"kind": "prep", "nqubits": n, "transpose": tr, "vec": [float(v) for v in vec],
+                                "derive": derive, "family": family}
+                        o, _, _ = obs("prep", gate.as_tensornet)
+                        add("KPrep %s %s %s" % (ct.z(n), ct.b(tr), o), dict(desc, op="structure"))
+                        if net is not None:
+                            # exact value run with zeros where the vector has zeros
+                            xi = np.array([0 if v == 0 else rng.randint(1, 3) * rng.choice([1, -1, 1j]) for v in vec], dtype=complex)
+                            for k in list(net.data):
+                                if k != "|0>_2":
+                                    net.data[k] = xi.reshape(n * (2,))
+                            add("VPrep %s %s %s %s" % (ct.nat(n), ct.b(tr), ct.lst([ct.zi(v) for v in xi]), sparse(full_tensor(net))),
+                                dict(desc, op="value", x=[str(v) for v in xi]))
 
     # ------------------------------------------------------------------ elementary gates and wrap
     one, two = elementary_gates(rng)
@@ -709,10 +947,15 @@ def replay(ctx, data):
         oracle_gate(ctx, "mux", inp, gate, inp["ncontrols"] + nt)
     elif kind == "phase":
         oracle_gate(ctx, "phase", inp, qib.PhaseFactorGate(inp["phi"], inp["nwires"]), inp["nwires"])
+    elif kind == "prep" and "derive" in inp:
+        prep_case(ctx, np.array(inp["vec"], dtype=float), inp["nqubits"], inp["transpose"], inp["derive"], inp.get("family", ""))
     elif kind == "prep":
         gate = qib.PrepareGate(np.array(inp["vec"], dtype=float), inp["nqubits"], transpose=inp["transpose"])
         x = np.sign(gate.vec) * np.sqrt(np.abs(gate.vec))
         oracle_gate(ctx, "prep", inp, gate, inp["nqubits"], prepare=(x, inp["transpose"]))
+    elif kind == "mux-sparse":
+        gate, desc, mats = build_mux({k: v for k, v in inp.items() if k not in ("kind", "op")})
+        mux_oracle(ctx, desc, gate, mats)
     elif kind == "elem":
         rng = ctx.rng
         one, two = elementary_gates(rng)
